@@ -85,7 +85,7 @@ func (lp *libPipeline) effective(rootPom string) (project maven.Project, stage s
 
 // effectiveCached runs the same pipeline for the project stored under pk, with
 // every POM (the project's own included) taken from the cache.
-func (lp *libPipeline) effectiveCached(pk maven.ProjectKey, cache *mpr.Cache) (project maven.Project, stage string, err error) {
+func (lp *libPipeline) effectiveCached(pk maven.ProjectKey, cache *mpr.Cache, alt bool) (project maven.Project, stage string, err error) {
 	defer func() {
 		if p := recover(); p != nil {
 			stage, err = "panic", fmt.Errorf("panic: %v", p)
@@ -95,7 +95,13 @@ func (lp *libPipeline) effectiveCached(pk maven.ProjectKey, cache *mpr.Cache) (p
 	if project, err = mpr.Fetch(ctx, pk); err != nil {
 		return project, "open", err
 	}
-	if err := project.MergeProfiles(maven.JDKProfileActivation, maven.OSProfileActivation); err != nil {
+	jdk, os := maven.JDKProfileActivation, maven.OSProfileActivation
+	if alt {
+		// Another machine: other profiles are active for the project's own
+		// POM. Whatever this run writes must stay in its own copy.
+		jdk, os = "1.8.0_292", maven.ActivationOS{Name: "windows 10", Family: "windows", Arch: "x86", Version: "10.0"}
+	}
+	if err := project.MergeProfiles(jdk, os); err != nil {
 		return project, "profiles", err
 	}
 	if err := mpr.MergeParents(ctx, project.Parent.ProjectKey, 1, &project); err != nil {
